@@ -1055,33 +1055,14 @@ class Machine:
             if self.oob(view):
                 raise JSThrow("TypeError")
             length2 = self.ta_length(view)
-            size = TYPES[view.t][0]
-            limit = length2 * size + view.off
-            to_b = to * size + view.off
-            from_b = frm * size + view.off
-            nbytes = count * size
             if length2 < length:
                 self.stat("method_saw_shrink")
-                if from_b + nbytes > limit or to_b + nbytes > limit:
-                    # the byte-wise loop of the specification stops at the first out-of-range byte; which bytes
-                    # were copied before depends on the direction: engines and spec drafts differ here
-                    self.hazard("undef:copywithin_partial_after_shrink")
-            buf = self.bufs[view.buf]
-            if from_b < to_b < from_b + nbytes:
-                direction = -1
-                from_b += nbytes - 1
-                to_b += nbytes - 1
-            else:
-                direction = 1
-            # snapshot-free byte loop exactly as written
-            while nbytes > 0:
-                if from_b < limit and to_b < limit:
-                    self.copy_bytes(buf, to_b, buf, from_b, 1)
-                    from_b += direction
-                    to_b += direction
-                    nbytes -= 1
-                else:
-                    nbytes = 0
+            # ES2025: "copying should proceed with the longest still-applicable prefix"
+            count = min(count, length2 - frm, length2 - to)
+            if count > 0:
+                size = TYPES[view.t][0]
+                buf = self.bufs[view.buf]
+                self.copy_bytes(buf, to * size + view.off, buf, frm * size + view.off, count * size)
         return "this"
 
     def m_reverse(self, view):
@@ -1329,7 +1310,7 @@ class Machine:
             return self.get_value(self.bufs[buf_uid], at, view.t)
         if op == "store":
             v = coerce(value)
-            if not big and v not in (math.inf, -math.inf) and abs(v) >= 2.0 ** 63:
+            if not big and v not in (math.inf, -math.inf) and abs(v) > 2.0 ** 63:
                 self.hazard("atomics_store_huge_return")
             revalidate()
             self.set_value(self.bufs[buf_uid], at, view.t, v)
